@@ -262,6 +262,11 @@ func (e *env) runSched(in Input) Obs {
 	lib.Must(err)
 	pdb := db.ConnPool.(*gorm.PreparedStmtDB)
 	ctl.mux = pdb.Mux
+	// burst barrier (gate.go: arrive) right before the statement goes to the cache
+	bar := func(d *gorm.DB) { arrive(d.Statement.Context) }
+	lib.Must(db.Callback().Query().Before("gorm:query").Register("c14:barrier", bar))
+	lib.Must(db.Callback().Raw().Before("gorm:raw").Register("c14:barrier", bar))
+	lib.Must(db.Callback().Row().Before("gorm:row").Register("c14:barrier", bar))
 
 	var obs Obs
 	notes := make([][]string, len(in.Progs))
